@@ -270,14 +270,21 @@ impl<L: Language, N: Analysis<L>> EGraph<L, N> {
 
             println!(">> {:?}", &c.syn_enode);
 
+            // print the e-nodes in a fixed order: the iteration order of `c.nodes` follows the hash of the
+            // e-nodes, which for `Symbol` payloads depends on the process-wide interning order.
+            let mut lines: Vec<String> = Vec::new();
             for (sh, psn) in &c.nodes {
                 let n = sh.apply_slotmap(&psn.elem);
 
                 #[cfg(feature = "explanations")]
-                println!(" - {n:?}    [originally {:?}]", psn.src_id);
+                lines.push(format!(" - {n:?}    [originally {:?}]", psn.src_id));
 
                 #[cfg(not(feature = "explanations"))]
-                println!(" - {n:?}");
+                lines.push(format!(" - {n:?}"));
+            }
+            lines.sort();
+            for line in lines {
+                println!("{line}");
             }
             for pp in &c.group.generators() {
                 println!(" -- {:?}", pp.elem);
